@@ -485,7 +485,7 @@ reg(Zoo(
 # fe_<frontend>: one flat machine written in several front-end syntaxes; guards are expressions over
 # three named atoms (the evaluation order of the atoms is part of the trace), actions are sequences
 def _fe_variants():
-    for fk in ('functor', 'basic', 'basic2', 'puml'):
+    for fk in ('functor', 'basic', 'basic2', 'puml', 'euml'):
         z = Zoo(
             name='fe_' + fk,
             events=['e1', 'e2', 'e3'],
@@ -493,6 +493,7 @@ def _fe_variants():
             atoms_a=['A1', 'A2', 'A3'],
             frontend=fk,
             cxx='20' if fk == 'puml' else '17',
+            configs=['b', 'bc', 'bq', 'b11'] if fk == 'euml' else ['b', 'bc', 'bq', 'b11', 'm', 'mf', 'mc'],
             root=Machine(
                 'Fe',
                 states=[S('A'), S('B'), S('C')],
